@@ -337,6 +337,17 @@ def read_parse_line(pl, interp, instruction_all):
     return [s for _, _, s in sorted(stages)]
 
 
+def _ctor(fenv, v, name):
+    """`Name(...)` or `Name(...) if <test> else None` (either way round) -> the call"""
+    if U.is_call(v, name=name):
+        return v
+    if isinstance(v, ast.IfExp):
+        for call, other in ((v.body, v.orelse), (v.orelse, v.body)):
+            if U.is_call(call, name=name) and fenv.try_const(other) == (True, None):
+                return call
+    return None
+
+
 def _get_key(fenv, v):
     """`d.get(K)` / `d.get(K, None)` / `d[K] if K in d else None` -> (True, K)"""
     if U.is_call(v, "get") and v.args and not v.keywords and len(v.args) <= 2:
@@ -381,8 +392,8 @@ def read_memory(pm, interp):
     regs = {}
     reg_list = []
     for n in ast.walk(pm):
-        if isinstance(n, ast.Assign) and U.is_call(n.value, name="RegisterOperand") and isinstance(n.targets[0], ast.Name):
-            for kw in n.value.keywords:
+        if isinstance(n, ast.Assign) and isinstance(n.targets[0], ast.Name) and _ctor(fenv, n.value, "RegisterOperand"):
+            for kw in _ctor(fenv, n.value, "RegisterOperand").keywords:
                 if kw.arg == "name" and isinstance(kw.value, ast.Subscript) and isinstance(kw.value.value, ast.Name):
                     ok, k = fenv.try_const(kw.value.slice)
                     if ok:
